@@ -207,10 +207,12 @@ fn apply_impl(inf: &mut Inflights, op: Op) {
 }
 
 /// Canonical key of the pair. The `Debug` rendering of `Inflights` covers every field
-/// (start, count, the whole ring including stale slots, cap, incoming_cap); whether the
-/// buffer is allocated is the only other thing the code branches on.
+/// (start, count, the whole ring including stale slots, cap, incoming_cap); the allocated
+/// capacity of the buffer is part of the key as well: the code branches on whether it is
+/// zero, and `Vec::reserve` may over-allocate when `set_cap` grows a window in place, a
+/// difference only a history through that path exhibits (seeded change C18d hid there).
 fn pair_key(inf: &Inflights, m: &Model) -> String {
-    format!("{:?}|{}|{:?}|{}|{:?}|{}|{}", inf, inf.buffer_capacity() > 0, m.win, m.cap, m.pending, m.next, m.adds)
+    format!("{:?}|{}|{:?}|{}|{:?}|{}|{}", inf, inf.buffer_capacity(), m.win, m.cap, m.pending, m.next, m.adds)
 }
 
 #[derive(Default, Clone)]
